@@ -79,6 +79,11 @@ pub trait Fl: 'static {
 
     fn try_recv(rx: &Self::Rx) -> Result<Self::P, TryRecvError>;
     fn recv(rx: &Self::Rx) -> Result<Self::P, RecvError>;
+    /// `rx.try_iter().next()` (plain receivers; the futures receivers have no iterators and fall
+    /// back to try_recv)
+    fn try_iter_next(rx: &Self::Rx) -> Option<Self::P> {
+        Self::try_recv(rx).ok()
+    }
     fn clone_rx(rx: &Self::Rx) -> Self::Rx;
     fn add_stream(rx: &Self::Rx) -> Self::Rx;
     fn unsubscribe_rx(rx: Self::Rx) -> bool;
@@ -141,6 +146,9 @@ impl<P: Pay, W: WaitSel> Fl for BcastPlain<P, W> {
     }
     fn recv(rx: &Self::Rx) -> Result<P, RecvError> {
         rx.recv()
+    }
+    fn try_iter_next(rx: &Self::Rx) -> Option<P> {
+        rx.try_iter().next()
     }
     fn clone_rx(rx: &Self::Rx) -> Self::Rx {
         rx.clone()
@@ -212,6 +220,9 @@ impl<P: Pay, W: WaitSel> Fl for MpmcPlain<P, W> {
     }
     fn recv(rx: &Self::Rx) -> Result<P, RecvError> {
         rx.recv()
+    }
+    fn try_iter_next(rx: &Self::Rx) -> Option<P> {
+        rx.try_iter().next()
     }
     fn clone_rx(rx: &Self::Rx) -> Self::Rx {
         rx.clone()
